@@ -66,8 +66,8 @@ CHECKS = {
     text="the real btcdeb binary is run non-interactively on every script of 1-2 symbols (thorough: 3) over an opcode alphabet that reaches every error class and the C++-exception paths, from several initial stacks and flag lists; exit status, terminating signal, stdout (final stack as lowercase hex bottom to top) and stderr error line are compared with the reference interpreter and with forced-interactive stepping of the same script; for representatives of every outcome class the full product of script delivery {stdin/pipe, stdin/pty, argv} x {-q, every --debug subset, DEBUG_* variables} must leave stdout and exit status unchanged; --verbose must be refused",
     note="trusted: mc_refcli (reference interpreter); error texts are compared implementation-vs-implementation (batch vs interactive)",
     tech="exhaustive enumeration of short scripts x delivery/option variants against the real binary with a reference oracle"),
- "C09": dict(engine="c09_flags+mc_script", cat=MC, design="DESIGN.md §3 C09",
-    text="(a) every single +/-NAME, every ordered pair over the 21 flag names, ordered triples, whole-table lists and 19 classes of malformed lists are passed to the real binary and the printed flag set is compared with set arithmetic over an independent table; --default-flags is compared with the standard set; behavioural probes pin 12 flags to their bits; (b) every script of 1-2 symbols from small initial stacks x 3 sigversions is run under all 2^8 subsets of the execution-relevant flags and every cover edge of the subset lattice is checked for monotonicity (success under B implies success under B minus one flag)",
+ "C09": dict(engine="c09_flags+mc_script+mc_spend", cat=MC, design="DESIGN.md §3 C09",
+    text="(a) every single +/-NAME, every ordered pair over the 21 flag names, ordered triples, whole-table lists and 19 classes of malformed lists are passed to the real binary and the printed flag set is compared with set arithmetic over an independent table; --default-flags is compared with the standard set; behavioural probes pin 12 flags to their bits; (b) every script of 1-2 symbols from small initial stacks x 3 sigversions is run under all 2^8 subsets of the execution-relevant flags and every cover edge of the subset lattice is checked for monotonicity (success under B implies success under B minus one flag); (c) the same relation on the debugger's own verdict of ~4.4 k auto-configured --tx/--txin sessions (valid spends of every output type, their single-item deviations, hand-made P2SH / bare spends with non-push-only scriptSigs) for each of the 18 non-activation flags, SIGPUSHONLY included",
     note="(a) independent flag table in drivers/procutil.py; (b) metamorphic relation on the real ContinueScript, exhaustive for inclusion by transitivity over the cover relation",
     tech="exhaustive enumeration of flag lists against the real binary + exhaustive lattice-edge check of the monotonicity relation"),
  "C12": dict(engine="c12_listing", cat=MC, design="DESIGN.md §3 C12",
